@@ -446,9 +446,9 @@ func funcKey(obj *types.Func) string {
 	if n != nil {
 		sig := obj.Type().(*types.Signature)
 		if _, ptr := sig.Recv().Type().(*types.Pointer); ptr {
-			return "(*" + n.Obj().Name() + ")." + obj.Name()
+			return "(*" + n.Obj().Name() + ")." + anchoredName(obj)
 		}
-		return n.Obj().Name() + "." + obj.Name()
+		return n.Obj().Name() + "." + anchoredName(obj)
 	}
 	if obj.Pkg() != nil {
 		return obj.Pkg().Name() + "." + obj.Name()
@@ -500,7 +500,101 @@ func fieldOf(v ssa.Value) (fieldRef, bool) {
 }
 
 func (r fieldRef) is(owner, field string) bool {
-	return r.Owner != nil && r.Owner.Obj().Name() == owner && r.Field.Name() == field
+	if r.Owner == nil || r.Owner.Obj().Name() != owner {
+		return false
+	}
+	if r.Field.Name() == field {
+		return true
+	}
+	return fieldRenamedTo(r.Owner, field) == r.Field
+}
+
+// fieldShape: unexported anchor fields that are recognisable by their type,
+// so that renaming one (a plausible cleanup) does not blind or mislead the
+// rules anchored on it. Used only when the struct has no field of the
+// anchored name; the match must be unique.
+var fieldShape = map[string]func(t types.Type) bool{
+	"Client.contReqs": func(t types.Type) bool {
+		sl, ok := t.Underlying().(*types.Slice)
+		if !ok {
+			return false
+		}
+		st, ok := sl.Elem().Underlying().(*types.Struct)
+		if !ok {
+			return false
+		}
+		for i := 0; i < st.NumFields(); i++ {
+			if st.Field(i).Embedded() && strings.HasSuffix(st.Field(i).Type().String(), "imapwire.ContinuationRequest") {
+				return true
+			}
+		}
+		return false
+	},
+	"Client.pendingCmds": func(t types.Type) bool {
+		sl, ok := t.Underlying().(*types.Slice)
+		return ok && types.IsInterface(sl.Elem()) && strings.HasSuffix(sl.Elem().String(), "imapclient.command")
+	},
+	"Mailbox.l": func(t types.Type) bool {
+		return strings.HasSuffix(t.String(), "[]*"+modPath+"/imapserver/imapmemserver.message")
+	},
+	"Server.conns": func(t types.Type) bool {
+		m, ok := t.Underlying().(*types.Map)
+		return ok && strings.HasSuffix(m.Key().String(), "imapserver.Conn")
+	},
+	"message.flags": func(t types.Type) bool {
+		m, ok := t.Underlying().(*types.Map)
+		return ok && strings.HasSuffix(m.Key().String(), "imap.Flag") || ok && strings.HasSuffix(m.Key().String(), modPath+".Flag")
+	},
+	"SessionTracker.queue": func(t types.Type) bool {
+		sl, ok := t.Underlying().(*types.Slice)
+		if !ok {
+			return false
+		}
+		_, isStruct := sl.Elem().Underlying().(*types.Struct)
+		return isStruct
+	},
+	"MailboxTracker.sessions": func(t types.Type) bool {
+		m, ok := t.Underlying().(*types.Map)
+		return ok && strings.HasSuffix(m.Key().String(), "imapserver.SessionTracker")
+	},
+	"User.mailboxes": func(t types.Type) bool {
+		m, ok := t.Underlying().(*types.Map)
+		return ok && strings.HasSuffix(m.Elem().String(), "imapmemserver.Mailbox")
+	},
+}
+
+var fieldRenameCache = map[string]*types.Var{}
+
+func fieldRenamedTo(owner *types.Named, field string) *types.Var {
+	key := owner.Obj().Name() + "." + field
+	shape := fieldShape[key]
+	if shape == nil {
+		return nil
+	}
+	ck := owner.String() + "." + field
+	if v, ok := fieldRenameCache[ck]; ok {
+		return v
+	}
+	var found *types.Var
+	st, ok := owner.Underlying().(*types.Struct)
+	if ok {
+		n := 0
+		for i := 0; i < st.NumFields(); i++ {
+			if st.Field(i).Name() == field {
+				found, n = nil, -1 // the anchored name exists: no alias
+				break
+			}
+			if shape(st.Field(i).Type()) {
+				found = st.Field(i)
+				n++
+			}
+		}
+		if n != 1 {
+			found = nil
+		}
+	}
+	fieldRenameCache[ck] = found
+	return found
 }
 
 func (r fieldRef) String() string {
